@@ -176,7 +176,12 @@ class Histogram1D(ObjectWithBinning, HistogramBase):
             self._stats = stats or INVALID_STATISTICS
 
         if self.keep_missed:
-            self._missed = np.array(missed, dtype=self.dtype)
+            missed_array = np.array(missed, dtype=float)
+            if self.dtype.kind in "iu" and np.isnan(missed_array).any():
+                # NaN (= unknown) cannot be stored in an integer array
+                self._missed = missed_array
+            else:
+                self._missed = missed_array.astype(self.dtype)
         else:
             self._missed = np.zeros(3, dtype=self.dtype)
 
@@ -298,9 +303,15 @@ class Histogram1D(ObjectWithBinning, HistogramBase):
             return np.nan
         return self._missed[0]
 
+    def _set_missed(self, index: int, value) -> None:
+        if self._missed.dtype.kind in "iu" and np.isnan(value):
+            # NaN (= unknown) cannot be stored in an integer array
+            self._missed = self._missed.astype(float)
+        self._missed[index] = value
+
     @underflow.setter
     def underflow(self, value):
-        self._missed[0] = value
+        self._set_missed(0, value)
 
     @property
     def overflow(self):
@@ -310,7 +321,7 @@ class Histogram1D(ObjectWithBinning, HistogramBase):
 
     @overflow.setter
     def overflow(self, value):
-        self._missed[1] = value
+        self._set_missed(1, value)
 
     @property
     def inner_missed(self):
@@ -320,7 +331,7 @@ class Histogram1D(ObjectWithBinning, HistogramBase):
 
     @inner_missed.setter
     def inner_missed(self, value):
-        self._missed[2] = value
+        self._set_missed(2, value)
 
     def find_bin(self, value: float, axis: Optional[Axis] = None) -> Optional[int]:
         """Index of bin corresponding to a value.
